@@ -46,8 +46,14 @@ def replay_case(ctx, sc, k):
 
     # ---- Sign(form, msgform) ----
     def do_sign():
-        key = kf.key_from_secret(curve, secret)
-        return kf.outcome(key.sign, m_in, generic=(form == 'generic'))
+        key = kf.key_from_secret(curve, secret, long_form=(k % 2 == 1))      # every other Ed25519 case holds the key in its 64-byte form
+        out = kf.outcome(key.sign, m_in, generic=(form == 'generic'))
+        if out[0] == 'ret' and tk == 'none':
+            # the signer's own object verifies what it has just signed (its public half is the public key of its secret half)
+            own = kf.outcome(key.verify, out[1], m_in)
+            if not (own[0] == 'ret' and own[1] is True):
+                return ('raise', 'OwnVerify', 'the signing Key object does not verify its own signature: %s' % (own[1:],))
+        return out
     o = memo(curve, ('sign', secret, m_in, form), do_sign)
     if o[0] == 'raise':
         ctx.mismatch('C07:sign:%s-%s-raises' % (cname, form),
